@@ -998,6 +998,18 @@ func (w *brWorld) buildPayout(ids []uint64, change bool, minFee uint64) (*btcTx,
 			var how string
 			sc, how = nearMiss(r, sc)
 			w.st.Count("change-output-near-miss:" + how)
+		} else if sd := r.Side(31); sd.Chance(16) {
+			// the relayer's own script with one header byte wrong (another witness version / push opcode)
+			var how string
+			for k := 0; k < 8; k++ {
+				if c, h := nearMiss(sd, sc); h == "witness-version" || h == "push-opcode" {
+					sc, how = c, h
+					break
+				}
+			}
+			if how != "" {
+				w.st.Count("change-output-near-miss:" + how)
+			}
 		}
 		outs = append(outs, btcOut{int64(r.Intn(100000)), sc})
 		if r.Chance(4) {
